@@ -225,12 +225,21 @@ def random_spec(rng, H=None, n_tasks=None, profile=None):
 
 
 def rename(spec, mapping):
-    """consistent renaming of tasks / workers / cumulative / buffers (deep)"""
-    import json
-    blob = json.dumps(spec)
-    # two-phase replacement through unique placeholders, on quoted names only
-    for i, (old, new) in enumerate(mapping.items()):
-        blob = blob.replace(json.dumps(old), f'"\u0000{i}\u0000"')
-    for i, (old, new) in enumerate(mapping.items()):
-        blob = blob.replace(f'"\u0000{i}\u0000"', json.dumps(new))
-    return json.loads(blob)
+    """consistent renaming of tasks / workers / cumulative / buffers: every string
+    VALUE equal to an old name is replaced (dictionary keys are field names and
+    stay); position 0 of an expression list is an operator and stays."""
+    def rec(x, in_expr_head=False):
+        if isinstance(x, str):
+            return mapping.get(x, x)
+        if isinstance(x, list):
+            if x and isinstance(x[0], str) and x[0] in _OPS:
+                return [x[0]] + [rec(y) for y in x[1:]]
+            return [rec(y) for y in x]
+        if isinstance(x, dict):
+            return {k: (v if k in ("kind", "type", "mode", "id", "pin") else rec(v)) for k, v in x.items()}
+        return x
+    return rec(spec)
+
+
+_OPS = {"start", "end", "duration", "sched", "horizon", "ind", "busy_start", "busy_end", "sel", "applied", "level",
+        "+", "-", "*", "<", "<=", ">", ">=", "==", "!=", "and", "or", "not", "ite"}
